@@ -329,7 +329,7 @@ func ruleCONV1(c *Ctx) {
 				return true
 			}
 			if call, ok := as.Rhs[0].(*ast.CallExpr); ok {
-				if fn := Callee(p, call); fn != nil && fn.Name() == b.conv && len(call.Args) == 1 && w.Src(call.Args[0]) == "args[0]" {
+				if fn := Callee(p, call); fn != nil && fn.Name() == b.conv && len(call.Args) == 1 && isArgN(p, fd, call.Args[0], 0) {
 					callsConv = true
 					if id, ok := as.Lhs[0].(*ast.Ident); ok {
 						convVar = p.TypesInfo.Defs[id]
@@ -365,7 +365,7 @@ func ruleCONV1(c *Ctx) {
 			}
 			return containsNode(is.Body, func(m ast.Node) bool {
 				r, ok := m.(*ast.ReturnStmt)
-				return ok && len(r.Results) == 2 && w.Src(r.Results[0]) == "args[0]"
+				return ok && len(r.Results) == 2 && isArgN(p, fd, r.Results[0], 0)
 			})
 		})
 		if !identity {
@@ -415,7 +415,7 @@ func ruleCONV1(c *Ctx) {
 		if b.name != "bool" {
 			fb := containsNode(fd.Body, func(n ast.Node) bool {
 				r, ok := n.(*ast.ReturnStmt)
-				return ok && len(r.Results) == 2 && w.Src(r.Results[0]) == "args[1]"
+				return ok && len(r.Results) == 2 && isArgN(p, fd, r.Results[0], 1)
 			})
 			if !fb {
 				probs = append(probs, "no `return args[1]` fallback for failed conversions")
@@ -617,4 +617,28 @@ func ruleIDX1(c *Ctx) {
 		good := len(indexed) == 1 && sameSet(indexed, measured) && sameSet(indexed, iter)
 		c.check(good, key, ig, "indexed, bounds-checked and iterated over the single storage "+setStr(indexed), fmt.Sprintf("%s.IndexGet reads %s, checks bounds against %s, and Iterate walks %s: index, bounds and iteration must agree on one storage (one unit: elements, bytes or runes)", tname, setStr(indexed), setStr(measured), setStr(iter)))
 	}
+}
+
+// isArgN: e is `params[n]`, the n-th element of the function's (variadic)
+// argument slice, whatever that parameter is called.
+func isArgN(p pkgT, fd *ast.FuncDecl, e ast.Expr, n int64) bool {
+	ix, ok := ast.Unparen(e).(*ast.IndexExpr)
+	if !ok {
+		return false
+	}
+	k, ok := ConstInt(p, ix.Index)
+	if !ok || k != n {
+		return false
+	}
+	id, ok := ast.Unparen(ix.X).(*ast.Ident)
+	if !ok || fd.Type.Params == nil || len(fd.Type.Params.List) == 0 {
+		return false
+	}
+	last := fd.Type.Params.List[len(fd.Type.Params.List)-1]
+	for _, nm := range last.Names {
+		if p.TypesInfo.Defs[nm] == p.TypesInfo.Uses[id] {
+			return true
+		}
+	}
+	return false
 }
